@@ -82,6 +82,65 @@ impl C07 {
     }
   }
 
+  /// a = [start date index, length, mode]: walk day by day through LunarDay::next(1) (mode 0) or SixtyCycleDay::next(1)
+  /// (mode 1), reading every view of each value before stepping on: all routes must advance one step per civil day
+  fn eval_walk(&self, env: &Env, out: &mut Out, case: &Case) {
+    use tyme4rs::tyme::Tyme;
+    let c = cal();
+    let i0 = case.a[0] as usize;
+    let len = case.a[1].clamp(1, 400) as usize;
+    let mode = case.a[2];
+    if i0 + len >= NDAYS {
+      return;
+    }
+    out.eval("walk");
+    out.nontrivial("walk", &case.a);
+    let (y, m, d) = c.ymd(i0);
+    let k = [("y", y), ("m", m), ("d", d), ("jdn", c.jdn(i0)), ("len", len as i64), ("mode", mode), ("end_jdn", c.jdn(i0 + len))];
+    let r = guard(|| {
+      let mut bad: Option<(usize, String)> = None;
+      if mode == 0 {
+        let mut l = sd_idx(c, i0).get_lunar_day();
+        for j in 0..len {
+          let jdn = c.jdn(i0 + j);
+          let got = (l.get_sixty_cycle().get_index() as i64, l.get_sixty_cycle_day().get_sixty_cycle().get_index() as i64, l.get_week().get_index() as i64, ymd(&l.get_solar_day()));
+          let exp = (day_pillar(jdn), day_pillar(jdn), weekday(jdn), c.ymd(i0 + j));
+          if got != exp {
+            bad = Some((j, format!("expected {:?} got {:?}", exp, got)));
+            break;
+          }
+          l = l.next(1);
+        }
+      } else {
+        let mut s = sd_idx(c, i0).get_sixty_cycle_day();
+        for j in 0..len {
+          let jdn = c.jdn(i0 + j);
+          let got = (s.get_sixty_cycle().get_index() as i64, s.get_solar_day().get_week().get_index() as i64, ymd(&s.get_solar_day()));
+          let exp = (day_pillar(jdn), weekday(jdn), c.ymd(i0 + j));
+          if got != exp {
+            bad = Some((j, format!("expected {:?} got {:?}", exp, got)));
+            break;
+          }
+          s = s.next(1);
+        }
+      }
+      bad
+    });
+    match r {
+      Ok(None) => {
+        if out.wants_sample("walk", true) {
+          out.sample("walk", true, || json!({"start": c.fmt(i0), "days_walked": len, "via": if mode == 0 { "LunarDay::next(1)" } else { "SixtyCycleDay::next(1)" }}));
+        }
+      }
+      Ok(Some((j, msg))) => {
+        out.fail(env, viol("walk", "walk_breaks", case, &k, format!("{} walking {} days from {}: step {} ({})", if mode == 0 { "LunarDay::next(1)" } else { "SixtyCycleDay::next(1)" }, len, c.fmt(i0), j, c.fmt(i0 + j)), "pillar (lunar route), pillar (sexagenary-day route), weekday and civil date advance one step per day".into(), msg));
+      }
+      Err(e) => {
+        out.fail(env, viol("walk", "walk_panics", case, &k, format!("walking {} days from {}", len, c.fmt(i0)), "no panic".into(), e));
+      }
+    }
+  }
+
   /// pillar of a lunar date constructed directly: first day of its month + day - 1
   fn eval_lunar(&self, env: &Env, out: &mut Out, case: &Case) {
     let (y, m, d) = (case.a[0], case.a[1], case.a[2]);
@@ -106,7 +165,7 @@ impl Prop for C07 {
   }
   fn meta(&self, env: &Env) -> Meta {
     Meta {
-      rule: format!("Generators: (a) `date`: every civil date 0001-01-01..9999-12-31 (exhaustive): pillar via SolarDay->LunarDay::get_sixty_cycle == (JDN+49) mod 60, weekday via SolarDay::get_week, JulianDay::get_week and LunarDay::get_week == (JDN+1) mod 7, with JDN from the independent model calendar; (b) the sexagenary-day route (SolarDay::get_sixty_cycle_day().get_sixty_cycle()) on {}; (c) `lunar`: every lunar date constructed directly (first and last day of every month, all days of {}): pillar == (first day of the month + day - 1 + 49) mod 60. Non-trivial: first/last day of a lunar month, first/last day of a civil month, 1582-09-20..11-10. Distinct = distinct dates.", env.tier.pick("every date of 1582, of years 1..30 and 236..241, every month end/start of ~360 boundary years and 150k proptest dates", "every civil date (exhaustive)"), env.tier.pick("every 8th month", "every month")),
+      rule: format!("Generators: (a) `date`: every civil date 0001-01-01..9999-12-31 (exhaustive): pillar via SolarDay->LunarDay::get_sixty_cycle == (JDN+49) mod 60, weekday via SolarDay::get_week, JulianDay::get_week and LunarDay::get_week == (JDN+1) mod 7, with JDN from the independent model calendar; (b) the sexagenary-day route (SolarDay::get_sixty_cycle_day().get_sixty_cycle()) on {}; (c) `lunar`: every lunar date constructed directly (first and last day of every month, all days of {}): pillar == (first day of the month + day - 1 + 49) mod 60. (d) `walk`: proptest (start date from AD 25, 20..120 days, route): walk day by day through LunarDay::next(1) or SixtyCycleDay::next(1), reading pillar (both routes), weekday and civil date of every value before stepping on. Non-trivial: every walk; first/last day of a lunar month, first/last day of a civil month, 1582-09-20..11-10. Distinct = distinct dates.", env.tier.pick("every date of 1582, of years 1..30 and 236..241, every month end/start of ~360 boundary years and 150k proptest dates", "every civil date (exhaustive)"), env.tier.pick("every 8th month", "every month")),
       assumptions: vec![
         "Anchors (JDN+49) mod 60 and (JDN+1) mod 7 are those quoted in the property statement; JDN comes from the model calendar CAL, not from jd.rs".into(),
       ],
@@ -165,6 +224,19 @@ impl Prop for C07 {
           }
         }
         out.set_exhaustive("lunar", env.tier == Tier::Thorough);
+        // day-by-day walks through next(1), reading every view before each step
+        let walks: u32 = env.tier.pick(400, 12_000);
+        let hi = c.year_start[9999] as i64 - 400;
+        let lo = c.year_start[25] as i64;
+        prop_run(env, out, "walk", walks / nshards as u32, 50 + shard as u64, (lo..hi, 20i64..=120, 0i64..2).prop_map(|(i, n, md)| Case::ints(&[i, n, md])), &ev);
+        if shard == 0 {
+          for (yy, mm, dd) in [(1582i64, 9i64, 20i64), (2020, 4, 20), (2023, 2, 15), (1, 1, 6), (9998, 9, 1)] {
+            for md in 0..2 {
+              run_case(env, out, "walk", &Case::ints(&[c.index(yy, mm, dd).unwrap() as i64, 120, md]), &ev);
+            }
+          }
+        }
+        out.set_exhaustive("walk", false);
       }
       _ => panic!("unknown task {}", t),
     }
@@ -173,6 +245,7 @@ impl Prop for C07 {
     match sub {
       "date" | "scd" => self.eval_date(env, out, sub, case),
       "lunar" => self.eval_lunar(env, out, case),
+      "walk" => self.eval_walk(env, out, case),
       _ => panic!("unknown sub-check {}", sub),
     }
   }
